@@ -60,7 +60,8 @@ BODIES = [
 ]
 # bodies with bitwise operators, shifts, powers or float arithmetic on the inputs: the solver enumerates x and y over a small box instead of
 # carrying them symbolically through bit-vector / floating-point terms (which does not finish); they make no opaque calls
-ENUM = {1, 3, 4, 5, 13, 20, 21, 22}
+import re as _re
+ENUM = {i for i, (_r, _b, _t) in enumerate(BODIES) if _re.search(r"\d\.\d|<<|\*\*|\^|&|\||float\(|abs\(", _b) and not _re.search(r"\b[fgh]\(|mk3|bump|mk_nat|cfoo", _b)}
 YMAX = 4 if any(i in ENUM for i in BATCH) else 1000
 IDX = [i for i in BATCH if i < len(BODIES) and ((BODIES[i][2] is None) if REGION is None else (BODIES[i][2] == REGION))]
 NB = len(IDX)
